@@ -152,6 +152,23 @@ func runConcStage(o *out, _ bool, _ *rng, args []string) map[string]interface{} 
 		cmd, fs, _ := parseCase(parts[0])
 		recs = append(recs, rec{parts[0], cmd, fs, fmt.Sprint(parseField(parts[1]))})
 	}
+	// first, alone and in REVERSE order: this process has used nothing of the library yet, so whatever is
+	// initialised on first use is now initialised by another operation than in the run that produced the sample
+	{
+		q := &out{quiet: true, stats: map[string]int{}, distinct: map[string]struct{}{}}
+		for i := len(recs) - 1; i >= 0; i-- {
+			c := recs[i]
+			fs := make([][]int, len(c.fs))
+			for k := range c.fs {
+				fs[k] = append([]int(nil), c.fs[k]...)
+			}
+			var got []int
+			pan, _ := guarded(func() { got = cmds[c.cmd](q, fs) })
+			if pan || fmt.Sprint(got) != c.want {
+				fmt.Println("differs " + c.line)
+			}
+		}
+	}
 	// every case is executed by 16 goroutines released at the same instant (three rounds), so that they are
 	// in the same code path of the library at the same time
 	const workers = 16
